@@ -215,6 +215,14 @@ def opaque_atoms(facts, lin):
         if k == 'attr' and len(t) == 3:
             walk(t[1])
             return
+        if k == 'call' and len(t) == 4 and t[1] == 'len' and len(t[2]) == 1:
+            # a length is a canonical unknown only for a field of the item or its encoding; the length of something that was
+            # built (joined, accumulated, comprehended) and that the algebra did not reduce is not comparable
+            x = t[2][0]
+            plain = lambda v: isinstance(v, tuple) and v and (v[0] in ('item', 'lv') or (v[0] == 'attr' and plain(v[1])))
+            if not (plain(x) or (x[0] == 'mcall' and x[2] == 'encode' and plain(x[1]) and all(y[0] == 'const' for y in x[3]))):
+                out.append(t)
+            return
         if k == 'call' and len(t) == 4 and isinstance(t[1], str):
             if t[1] not in PURE_BUILTINS:
                 out.append(t)
@@ -257,6 +265,10 @@ def opaque_atoms(facts, lin):
     return out
 
 
+def IS_havoc(t):
+    return isinstance(t, tuple) and bool(t) and (t[0] == 'havoc' or any(IS_havoc(x) for x in t if isinstance(x, tuple)))
+
+
 def check_conservation(report, pa, rule, expect_label_writes):
     """L2 / L3 for one pass: bytes in == bytes out + label delta; position advances by bytes out; label shifts are applied to
     all labels strictly after the item start."""
@@ -272,6 +284,13 @@ def check_conservation(report, pa, rule, expect_label_writes):
         if not (total - r['consumed']).is_zero():
             where = r['updates'][0][0]['node'] if r['updates'] else node
             hidden = opaque_atoms(pa.facts, total - r['consumed'])
+            residue = total - r['consumed']
+            if not hidden and any(isinstance(k, tuple) and k and k[0] == 'size' for k in residue.terms):
+                # the size of an item whose class the path does not pin: a disproof only if nothing on the path could have pinned
+                # it - a condition the walker did not see through (a helper object deciding the match) may well do so
+                class L:
+                    terms = {t: 1 for t, pol, _ in path.conds if isinstance(t, tuple)}
+                hidden = opaque_atoms(pa.facts, L) or [t for t, pol, _ in path.conds if IS_havoc(t)]
             if hidden:
                 # a difference made of terms the size algebra does not see through is no disproof
                 raise AnalysisError('{}: on the path [{}] the bytes an item contributes ({}) and the bytes emitted ({}) are not comparable: {} is not followed'.format(
